@@ -260,8 +260,15 @@ def _check_piece(spec, q, zero, dbl, prec, W, overflow, data, pos, rx):
                        % (spec.text, float(q), data[pos:pos + W + 6],
                           'a %-overflow' if overflow else 'exactly %d characters' % W))
     end = mo.end()
-    if overflow and end - pos - 1 <= W:
-        raise Mismatch('field %r: %% overflow mark but the number %r fits the field' % (spec.text, mo.group(0)))
+    if overflow:
+        # declared-width clause, independent of the model: '%' only when the value genuinely does not fit,
+        # i.e. its shortest text [sign][$]digits[.decimals][E+dd][sign] - without the optional zero before the
+        # point, which is printed only "if there is space" - is longer than the field
+        droppable = 1 if (mo.group(1) == b'0' and mo.group(2) and (mo.group(3) or spec.exp)) else 0
+        need = end - pos - 1 - droppable
+        if need <= W:
+            raise Mismatch('field %r (declared width %d) value %s: wrote %d characters %r, but the number needs '
+                           'only %d and fits the field' % (spec.text, W, float(q), end - pos, mo.group(0), need))
     if not overflow and end - pos != W:
         raise Mismatch('field %r value %s: wrote %d characters %r, declared width %d'
                        % (spec.text, float(q), end - pos, data[pos:end], W))
@@ -581,6 +588,8 @@ class C08(core.Check):
             C(b'## $', [['%', 5]]), C(b'##*', [['%', 5]]), C(b'$', [['%', 5]]), C(b'## $', [['%', 5], ['%', 6]]),
             C(b'##.##^^^^', [S('9.996')]), C(b'##^^^^', [['%', 96]]), C(b'##.#^^^^', [D('9.95')]),
             C(b'###^^^^', [S('0.996')]),
+            # seeded: trailing sign appended after the leading-zero decision (width clause)
+            C(b'.##-', [S('0.5')]), C(b'.##+', [S('-0.5')]), C(b'.##-', [['%', 0]]), C(b'.#^^^^-', [S('0.5')]),
             # D08d
             C(b'$$#.##', [S('0.5')]), C(b'$$.', [['%', 0]]), C(b'**$.##', [S('-0.5')]), C(b'**$.', [S('0')]),
             C(b'+$$#.##', [S('0.5')]), C(b'$$#.##-', [D('-0.5')]),
@@ -630,6 +639,17 @@ class C08(core.Check):
         # every boundary value through a fixed set of field shapes (both tiers; more shapes when thorough)
         shapes = [b'##.##', b'#.#', b'.###', b'##', b'###,###.#', b'##.##^^^^', b'+#.###^^^^', b'$$##.##-',
                   b'**#.#+', b'#####.#####']
+        # no digit position before the point x every sign mode x |x| < 1 including 0 (both signs)
+        small = []
+        for x in ('0', '0.5', '-0.5', '0.25', '-0.25', '0.06', '-0.06', '0.004', '-0.004', '0.999', '-0.999',
+                  '0.995', '0.001', '-0.001'):
+            small.append(single_of(Fraction(x)))
+            small.append(double_of(Fraction(x)))
+        for sh in (b'.##', b'+.##', b'.##+', b'.##-', b'.#', b'.#-', b'+.#', b'.#+', b'.##^^^^', b'+.##^^^^',
+                   b'.##^^^^-', b'.##^^^^+', b'$$.##', b'$$.##-', b'+$$.##', b'**.##-', b'**$.#+'):
+            for i in range(0, len(small), 7):
+                out.append(self._case(sh + b'|', small[i:i + 7]))
+                hist['no_integer_position'] = hist.get('no_integer_position', 0) + 1
         if self.tier == 'thorough':
             shapes += [b'#', b'.#', b'#.', b'**$##,###.##', b'+##.####', b'#.######^^^^', b'^^^^#', b'.##^^^^',
                        b'################.########', b'#.################^^^^', b'##,###,###,###,###,###.##']
